@@ -754,6 +754,24 @@ Section RunDoc.
   Variable time_dec : string -> option tval.
   Variable text_dec : string -> option string.
 
+  (** PrepareQuery: every field occurrence the operation reaches has its own arguments parsed, in turn;
+      the first failure is the request's error.  (One argument type [t]: the occurrences are selections of
+      the same field.) *)
+  Fixpoint parse_all (t : ty) (l : list (string * jv)) : result (list gv) :=
+    match l with
+    | [] => Ok []
+    | (_, j) :: r => match parse b64_dec time_dec text_dec t j with
+                     | Err e => Err e
+                     | Ok v => match parse_all t r with Ok vs => Ok (v :: vs) | Err e => Err e end
+                     end
+    end.
+
+  Definition run_multi (t : ty) (vars : list (string * jv)) (d : doc) : result (list gv) :=
+    match parse_doc vars d with
+    | Err e => Err e
+    | Ok p => parse_all t (doc_fields 4 p)
+    end.
+
   (** Parse the document, then parse the arguments of the one field [f] it reaches. *)
   Definition run_doc (t : ty) (vars : list (string * jv)) (d : doc) : result gv :=
     match parse_doc vars d with
@@ -771,7 +789,11 @@ Record send := mk_send { s_defs : list vardef; s_vars : list (string * jv);
                          s_args : list (string * lit); s_place : place; s_obs : obs;
                          s_calls : Z (* resolver calls observed for this request *) }.
 
-Record case := mk_case { c_ty : ty; c_sends : list send }.
+(** A request selecting the same field several times (aliases, fragments), each with its own arguments. *)
+Inductive mobs := MOk (vs : list gv) (* in document order *) | MErrParse | MErrArgs | MOther.
+Record msend := mk_msend { m_vars : list (string * jv); m_doc : doc; m_obs : mobs; m_calls : Z }.
+
+Record case := mk_case { c_ty : ty; c_sends : list send; c_multi : list msend }.
 
 Definition run_conc (t : ty) (s : send) : result gv :=
   run_doc b64_dec time_dec text_dec t (s_vars s) (doc_at (s_place s) (s_defs s) "f" (s_args s)).
@@ -800,7 +822,32 @@ Fixpoint check_sends (t : ty) (k : nat) (ss : list send) : list nat :=
   | s :: r => (map (fun c => (10 * k + c)%nat) (check_send t s) ++ check_sends t (S k) r)%list
   end.
 
-Definition check_case (c : case) : list nat := check_sends (c_ty c) 0 (c_sends c).
+Fixpoint gvs_eqb (a b : list gv) : bool :=
+  match a, b with
+  | [], [] => true
+  | x :: a', y :: b' => gv_eqb x y && gvs_eqb a' b'
+  | _, _ => false
+  end.
+
+(** codes 101-103: as 1-3, for a request with several selections of the field *)
+Definition check_msend (t : ty) (s : msend) : list nat :=
+  let r := run_multi b64_dec time_dec text_dec t (m_vars s) (m_doc s) in
+  let c1 := match r, m_obs s with
+            | Ok _, MOk _ | Err EParse, MErrParse | Err EArgs, MErrArgs => []
+            | _, _ => [101%nat]
+            end in
+  let c2 := match r, m_obs s with
+            | Ok vs, MOk vs' => if gvs_eqb vs vs' then [] else [102%nat]
+            | _, _ => []
+            end in
+  let c3 := match r with
+            | Ok vs => if m_calls s =? Z.of_nat (List.length vs) then [] else [103%nat]
+            | Err _ => if m_calls s =? 0 then [] else [103%nat]
+            end in
+  (c1 ++ c2 ++ c3)%list.
+
+Definition check_case (c : case) : list nat :=
+  (check_sends (c_ty c) 0 (c_sends c) ++ flat_map (check_msend (c_ty c)) (c_multi c))%list.
 
 Fixpoint mismatches_from_sparse (_ : nat) (cs : list (nat * case)) : list (nat * list nat) :=
   match cs with
